@@ -313,7 +313,7 @@ class Run:
         self.coverage["checker_cmd"] = "cd /verif/coq && make -j16 %s  (coqc 8.16.1, full .vo build); " \
             "coqc Print Assumptions on %s" % (" ".join(targets), module)
         self.coverage["obligations"] += len(theorems)
-        rc, out, dt = coq_build(targets)
+        rc, out, dt = coq_build(list(targets) + ["Model/Cases.vo", "Model/RuntimeSpec.vo", "Model/StrictSpec.vo"])
         self.coverage["coq_build_s"] = round(dt, 1)
         problems = audit_sources()
         if rc != 0:
